@@ -10,13 +10,24 @@ from harness import core, oracles
 ID = "C06"
 RULE = ("loader kinds manual / empirical / marginal-direct / marginal-sampling / function, each through direct construction "
         "and through JointDegreeDistribution.load_joint_degree (which calls create_jdd a second time): exhaustive small "
-        "empirical sequences (all sequences of length <= 4 over 3 keys) and all one-/two-dimensional marginal boxes with "
-        "bounds in 0..3 on fixed tables, then seeded random tables (dyadic values, zeros included), 0-3 topologies, boxes of "
-        "<= 36 points incl. empty and inverted bounds, sampling with scripted random.choices (1-12 samples, all answers "
-        "scripted, two rounds through the dispatcher); malformed: all-zero marginal (ZeroDivisionError), fewer callables "
-        "than bounds (IndexError), sampling without dimensions (ValueError). Compared: the .jdd mapping as a key->value map, "
-        "every logged choices call (population, weights, k), key type tags, exception class. Non-trivial = valid case whose "
-        "distribution has >= 2 keys; distinct by full case")
+        "empirical sequences (all sequences of length <= 4 over 3 keys, motif sizes cycling through (2,2),(2,3),(3,5),(1,4) so "
+        "that column totals are mostly NOT multiples of them) and all one-/two-dimensional marginal boxes with "
+        "bounds in 0..3 on fixed tables (optional keys cycling through absent / explicit default), then seeded random tables "
+        "(dyadic values, zeros included), 0-3 topologies, free motif sizes 1..9, boxes of "
+        "<= 36 points incl. empty and inverted bounds, a share of manual/empirical keys with entries of 2**31..1e20, sampling "
+        "with scripted random.choices (1-12 samples, all answers "
+        "scripted, two rounds through the dispatcher); OPTIONAL KEYS for every loader: use_sampling absent / explicit False / "
+        "explicit True and n_samples absent / given (marginal: direct mode for absent and for explicit False, with or "
+        "without n_samples; sampling mode only with explicit True; the other loaders must ignore both keys), "
+        "joint_degree_type also present on direct construction and given as enum or as string; malformed: all-zero marginal "
+        "(ZeroDivisionError), fewer callables "
+        "than bounds (IndexError), sampling without dimensions (ValueError). The oracle is lenient and primitive-agnostic: a "
+        "call of any random primitive the documented behaviour does not make is answered from a seeded fallback and recorded "
+        "(a correspondence difference), and the distribution finally exposed is still judged by the verified checker. "
+        "Compared: the .jdd mapping as a key->value map, "
+        "every logged choices call (population, weights, k), unexpected random calls, the caller's parameters before/after "
+        "(observed sequence incl. entry types, dictionary, bounds, callables, motif sizes), key type tags, exception class. "
+        "Non-trivial = valid case whose distribution has >= 2 keys; distinct by full case")
 EXHAUSTIVE = {"quick": True, "thorough": True}
 EXPLANATION = ("general theorems (all inputs) in Props/C06.v; sampling-limit clause partial (the result is proved to be the "
                "empirical law of the column-stacked oracle answers; the law of large numbers for the RNG oracle is not "
@@ -562,12 +573,25 @@ def describe(case, io):
 
 def histogram(cases):
     h = {k: 0 for k in KINDS}
-    h.update({"dispatcher_path": 0, "malformed": 0, "empty_box": 0, "max_box_points": 0})
+    h.update({"dispatcher_path": 0, "malformed": 0, "empty_box": 0, "max_box_points": 0, "use_sampling_explicit_False": 0,
+              "n_samples_explicit_in_direct_mode": 0, "optional_keys_on_other_loaders": 0,
+              "empirical_column_total_not_multiple_of_size": 0})
     for c in cases:
         h[KINDS[c["kind"]]] += 1
         h["dispatcher_path"] += c.get("path", 0)
         if not is_valid(c):
             h["malformed"] += 1
+        o = c.get("opts") or {}
+        if o.get("use_sampling") == "False":
+            h["use_sampling_explicit_False"] += 1
+        if c["kind"] == 2 and o.get("n_samples", "absent") != "absent":
+            h["n_samples_explicit_in_direct_mode"] += 1
+        if c["kind"] in (0, 1, 4) and (o.get("use_sampling", "absent") != "absent" or o.get("n_samples", "absent") != "absent"):
+            h["optional_keys_on_other_loaders"] += 1
+        if c["kind"] == 1 and c["jds"]:
+            sz = c.get("sizes") or [2] * len(c["jds"][0])
+            if any(sum(col) % s_ for col, s_ in zip(zip(*c["jds"]), sz)):
+                h["empirical_column_total_not_multiple_of_size"] += 1
         if "bounds" in c:
             pts = 1
             for b in c["bounds"]:
